@@ -197,7 +197,48 @@ void h_translate(void) {
     return spec
 
 
+def _k0():
+    """K18c: run() rejects k < 1 before anything is computed or emitted (loop-free: all k)."""
+    log = []
+    rel = "include/parmcb/detail/approx_spanner.hpp"
+    text = X.src(rel)
+    body = X.body_after(text, r"WeightType run\(CycleOutputIterator out\)\s*", "BaseApproxSpannerAlgorithm::run")
+    i = body.find("ExactAlgorithm exact_mcb_algo;")
+    if i < 0:
+        raise Undecided("extraction out of date: start of the algorithm phase in run()")
+    prefix = body[:i]
+    prefix = X.rewrite(prefix, [
+        (r"throw std::runtime_error\(\s*(\"[^\"]*\")\);", r"VP_THROWV(\1);", 1, "exceptions", "throw -> ghost flag + return"),
+        (r"\b_k\b", "vp_k", (1, 2), "type-binding", "member _k (std::size_t)"),
+        (r"#ifdef PARMCB_INVARIANTS_CHECK\s*check_edge_length_preconditions\(\);\s*#endif", "", (0, 1), "drop", "weight sanity check (no output)"),
+        (r"EdgeWeightMapType spanner_weight_map = get\(boost::edge_weight,\s*_spanner\);", "", (0, 1), "drop", "property map handle"),
+    ], log)
+    fn = r"""
+#include <stddef.h>
+size_t vp_k; int vp_thrown, vp_phase_started;
+#define VP_THROWV(msg) do { vp_thrown = 1; return 0; } while (0)
+long run_prefix(void)
+__CPROVER_requires(vp_thrown == 0 && vp_phase_started == 0)
+__CPROVER_assigns(vp_thrown, vp_phase_started)
+/* k = 0 is rejected with an exception before the exact phase or any emission starts; k >= 1 is accepted */
+__CPROVER_ensures(vp_k == 0 ==> (vp_thrown && !vp_phase_started))
+__CPROVER_ensures(vp_k >= 1 ==> (!vp_thrown && vp_phase_started))
+{
+%s
+  vp_phase_started = 1;        /* from here on the exact phase runs and cycles are written to `out` */
+  return 0;
+}
+size_t vp_in_k;
+void h_k0(void) { vp_in_k = vp_k; long r = run_prefix(); (void) r; __CPROVER_assert(0, "VP_REACH end"); }
+""" % prefix
+    return dict(unit="K18c_run_rejects_k0", lang="c", source=rel + " (run(): parameter check)", text=fn, entry="h_k0", enforce="run_prefix",
+                mode="proof", timeout=600, bound="every k (size_t)", rewrites=log, dropped=["everything after the parameter check"],
+                functions={"BaseApproxSpannerAlgorithm::run: k=0 rejected before any emission": "proved"},
+                assumptions=["the constructor (construct_spanner) emits nothing - it has no access to the output iterator"], trusted=["cbmc 6.11 + DFCC"])
+
+
 def units(tier):
     big = tier == "thorough"
     return [X.guarded("K17a_construct_spanner", _construct, False, 32 if big else 12),
-            X.guarded("K18a_translate_cycles", _translate, False, 4 if big else 3, 5 if big else 4)]
+            X.guarded("K18a_translate_cycles", _translate, False, 4 if big else 3, 5 if big else 4),
+            X.guarded("K18c_run_rejects_k0", _k0)]
